@@ -14,15 +14,15 @@ def Q(r, o=0):
     return '[t |-> "ptr", r |-> "%s", v |-> %d]' % (r, o)
 
 
-def ctx_tla(name, slots, regions, retfrom, secbr, rodata):
+def ctx_tla(name, slots, regions, retfrom, secbr, rodata, trace=()):
     sl = " @@ ".join("%d :> %s" % (k, v) for k, v in sorted(slots.items()))
     regs = dict(regions)
     for sym, size in rodata.items():
         regs[sym] = (size, False, False)
     rg = " @@ ".join('"%s" :> [size |-> %d, sec |-> %s, wr |-> %s]' % (
         k, v[0], "TRUE" if v[1] else "FALSE", "TRUE" if v[2] else "FALSE") for k, v in sorted(regs.items()))
-    return '[name |-> "%s", slots |-> (%s), regions |-> (%s), retfrom |-> %d, secbr |-> %d]' % (
-        name, sl, rg, retfrom, secbr)
+    return '[name |-> "%s", slots |-> (%s), regions |-> (%s), retfrom |-> %d, secbr |-> %d, trace |-> << %s >>]' % (
+        name, sl, rg, retfrom, secbr, ", ".join(map(str, trace)))
 
 
 # ---- call contexts per routine: (name, slots, regions{name: (size, secret, writable)}, retfrom, secbr)
@@ -81,6 +81,54 @@ def ctx_xor(n):
              {"dst": (n, True, True), "src1": (n, True, False), "src2": (n, True, False)}, 24, 0)]
 
 
+def build_target(chk):
+    """asmtarget binary + symbol table (for the ptrace PC traces)"""
+    if "_asmtarget" in chk.extra:
+        return chk.extra["_asmtarget"]
+    chk.drv()
+    out = os.path.join(chk.rd, "asmtarget")
+    p = core.sh(["go", "build", "-modfile=" + os.path.join(chk.rd, "go.mod"), "-tags", "verif", "-o", out, "./asmtarget"],
+                cwd=os.path.join(core.VERIF, "harness"), env=core.GOENV, check=False, timeout=600)
+    if p.returncode != 0:
+        raise core.Infra("asmtarget build failed:\n" + p.stdout[-2000:])
+    q = subprocess.run(["go", "tool", "nm", "-n", "-size", out], capture_output=True, text=True, env=core.GOENV)
+    syms = {}
+    for line in q.stdout.splitlines():
+        f = line.split()
+        if len(f) >= 4 and f[3].startswith("github.com/bilibili/smgo/sm4.") and f[3].endswith(".abi0"):
+            syms[f[3].split(".")[-2]] = (f[0], f[1])
+    chk.extra["_asmtarget"] = (out, syms)
+    return out, syms
+
+
+def cpu_trace(chk, routine, prog, args):
+    """PC trace of the real routine as 1-based instruction indices of `prog`"""
+    out, syms = build_target(chk)
+    if routine not in syms:
+        raise core.Infra("symbol %s not in the target binary" % routine)
+    lo, size = syms[routine]
+    p = subprocess.run([chk.drv(), "asmtrace", lo, size, out] + [str(a) for a in args], capture_output=True, text=True,
+                       timeout=300)
+    if p.returncode != 0:
+        raise core.Infra("asmtrace failed for %s %s: %s" % (routine, args, p.stderr[-300:]))
+    import json as _j
+    pcs = _j.loads(p.stdout)
+    idx = {}
+    for i, ins in enumerate(prog):
+        idx.setdefault(ins["pc"], i + 1)
+    try:
+        return [idx[x] for x in pcs]
+    except KeyError as e:
+        raise core.Infra("CPU executed pc %s of %s which is not an instruction boundary of the listing" % (e, routine))
+
+
+def program(chk, fname, routine, arch="amd64"):
+    progs = chk.extra.setdefault("_asm_progs", {})
+    if fname not in progs:
+        progs[fname] = asmx.routines(os.path.join(core.REPO, "sm4", fname), arch)
+    return progs[fname][routine]
+
+
 def run_routine(chk, fname, routine, contexts, workers=4, timeout=1800, maxsteps=400000, arch="amd64"):
     """-> list of dict(ctx, steps, errs[list], acc{region: (rlo, rhi, wlo, whi)}, nsb)"""
     progs = chk.extra.setdefault("_asm_progs", {})
@@ -102,7 +150,7 @@ def run_routine(chk, fname, routine, contexts, workers=4, timeout=1800, maxsteps
         f.write("(* GENERATED from `go tool asm -S` of %s (routine %s) in %s: do not edit. *)\n" % (fname, routine, core.REPO))
         f.write("EXTENDS Integers, TLC\n")
         f.write("Prog ==\n%s\n" % asmx.tla_prog(prog))
-        f.write("Contexts == <<\n  %s >>\n" % ",\n  ".join(ctx_tla(c[0], c[1], c[2], c[3], c[4], rodata) for c in contexts))
+        f.write("Contexts == <<\n  %s >>\n" % ",\n  ".join(ctx_tla(c[0], c[1], c[2], c[3], c[4], rodata, c[5] if len(c) > 5 else ()) for c in contexts))
         f.write("MaxSteps == %d\n" % maxsteps)
         f.write("=============================================================================\n")
     with open(os.path.join(d, "AsmMachine.cfg"), "w") as f:
